@@ -54,6 +54,14 @@ def gen(ctx, rng):
             c0 = int(rng.integers(0, max(1, n - 2)))
             c1 = int(rng.integers(c0 + 2, n + 1))
         cases.append(dict(x=[float(v) for v in x], dtype=dtype, nodata=nd, c0=c0, c1=c1, shape=shape, scale=scale, zshare=zshare))
+    # long integer series: the grouped kernel must treat int16 input exactly like the ungrouped one (logarithms in double
+    # precision) - a single-precision fit flips the rounding of a few values in a thousand
+    for it in range(16 if ctx.thorough else 8):
+        n = 400
+        x = np.clip(np.round(rng.gamma(float(rng.choice([0.8, 2.0, 6.0])), float(rng.choice([30.0, 120.0, 700.0])), size=n)), 0, 32000)
+        x[rng.random(n) < 0.1] = 0
+        x[rng.random(n) < 0.05] = -9999.0
+        cases.append(dict(x=[float(v) for v in x], dtype="int16", nodata=-9999.0, c0=0, c1=n, shape=2.0, scale=100.0, zshare=0.1, record=it < 2))
     return cases
 
 
@@ -105,7 +113,14 @@ def run(ctx):
     kw_cube[rng.random(kw_cube.shape) < 0.2] = 0
     kw_cube[rng.random(kw_cube.shape) < 0.1] = -9999
     kw_cube = np.where(kw_cube == -9999, -9999, np.round(kw_cube))
-    res, log = core.run_impl("c07_impl.py", dict(cases=cases, accessor=acc, cubes=[dict(cube=kw_cube.tolist(), dtype="int16", nodata=-9999.0)]), timeout=3000)
+    # many small groups of low-variance integer data (shape 100..400): the fit is sensitive to the precision of the logarithms
+    grouped = []
+    for it in range(8 if ctx.thorough else 4):
+        n, ng = 360, 36
+        shp = float(rng.choice([100.0, 400.0, 250.0]))
+        xg = np.clip(np.round(rng.gamma(shp, 3000.0 / shp, size=n)), 1, 32000)
+        grouped.append(dict(x=[float(v) for v in xg], dtype=["int16", "int16", "float32"][it % 3], groups=[int(i % ng) for i in range(n)], ng=ng, nodata=-9999.0))
+    res, log = core.run_impl("c07_impl.py", dict(cases=cases, accessor=acc, grouped=grouped, cubes=[dict(cube=kw_cube.tolist(), dtype="int16", nodata=-9999.0)]), timeout=3000)
     if res is None:
         ctx.violation("implementation run failed", dict(kind="impl-crash", log=log[-3000:]), found_input=False)
         return
@@ -143,6 +158,13 @@ def run(ctx):
         elif r.get("kw_nodata0_equal") is not True or not r.get("acc_equal"):
             spec_fail.append((dict(kind="cube", n=10 ** 6, cube=kw_cube.tolist()), "spi(nodata=0) with a missing / different nodata attribute differs from the kernel "
                               "run with nodata 0 (%s), or the accessor differs from the kernel (%s)" % (r.get("kw_nodata0_equal"), r.get("acc_equal"))))
+    for gcase, r in zip(grouped, res.get("grouped") or []):
+        if "error" in r:
+            spec_fail.append((dict(kind="grouped", n=10 ** 6), "gammastd_grp raised %s" % r["error"]))
+        elif r["differ"]:
+            spec_fail.append((dict(kind="grouped", n=10 ** 6, dtype=gcase["dtype"], first=r["first"], x=gcase["x"]), "gammastd_grp on %s input differs from the ungrouped kernel "
+                              "on the groups' sub-series in %d of %d values (first: %s)" % (gcase["dtype"], r["differ"], r["n"], r["first"])))
+    dist["grouped_values_compared"] = sum(r.get("n", 0) for r in (res.get("grouped") or []))
     acc_cmp = 0
     for a, r in zip(acc, res.get("accessor", [])):
         m = dict(n=10 ** 6, kind="accessor", dtype=a["dtype"], groups="calendar months" if a["groups"] else None, begin=a["begin"], end=a["end"])
